@@ -3,7 +3,7 @@ import itertools
 import vlib
 from vlib import Stream, hexs
 from checks import seqideal
-from checks.seqcommon import SeqCheck, pack
+from checks.seqcommon import SeqCheck, pack, ts_variant
 
 # element pool: with / without trailing NUL, embedded NUL, lone NUL, two trailing NULs, 8-byte, long
 POOL = [b"a\0", b"bb", b"c\0c", b"\0", b"dddd\0", b"e", b"ff\0\0", b"g" * 8, b"hh\0h\0", b"i" * 300]
@@ -91,6 +91,37 @@ class TheCheck(SeqCheck):
             for mx in range(5):
                 hs.append(["new list"] + build(n, "last") + ["setsize %d" % mx, "addlast 71", "removefirst", "addlast 72",
                                                            "poplast", "poplast", "addfirst 73", "setsize 0", "addlast 74"])
+        return hs
+
+    BIG_LIMITS = [2**31 - 1, 2**31, 2**32 - 1, 2**32, 2**32 + 2, 2**40, 2**64 - 2, 2**64 - 1]
+
+    def gen_big_limits(self):
+        """limits at and beyond the int / unsigned / 32-bit boundaries: what setsize hands back (the
+        previous limit, so the next setsize reads the stored value back) and whether the following
+        adds are accepted or refused - no memory needed, three elements are enough"""
+        hs = []
+        for kind, add in (("list", "addlast"), ("queue", "push"), ("stack", "push")):
+            for i, L in enumerate(self.BIG_LIMITS):
+                L2 = self.BIG_LIMITS[(i + 3) % len(self.BIG_LIMITS)]
+                h = ["new %s %d" % (kind, i & 1), "setsize %d" % L, add + " 61", add + " 6262", add + " 636363", "inv", "setsize 2", add + " 64",
+                     "setsize %d" % L2, add + " 65", "setsize 4", add + " 66", "setsize %d" % L, add + " 67", add + " 68", "setsize 0",
+                     "size", "setsize 3", add + " 69", "setsize 0", "end"]
+                hs.append(h)
+        return hs
+
+    def gen_lockprobe(self):
+        """`lockprobe` (harness/seq.c): inside lock() ... unlock() a nested public add; a second thread
+        must find the mutex busy until the outer unlock() - on thread-safe containers of every kind,
+        empty, filled, full (the nested add is refused), between the steps of a walk"""
+        hs = []
+        for kind, add in (("list", "addlast"), ("queue", "push"), ("stack", "push"), ("grow", "add")):
+            for opt in (1, 0, 3):
+                h = ["new %s %d" % (kind, opt), "lockprobe", add + " 6100", "lockprobe", "lockprobe"]
+                if kind != "grow":
+                    h += ["setsize 2", "lockprobe", "setsize 0", "lockprobe"]
+                if kind == "list":
+                    h += ["reset", "next 1", "lockprobe", "next 0", "popfirst", "lockprobe", "walk 1"]
+                hs.append(h + ["inv", "end"])
         return hs
 
     def gen_contents(self):
@@ -183,7 +214,9 @@ class TheCheck(SeqCheck):
                         op = "clear"
                     elif r < 0.80:
                         op = "addnull %d" % idx
-                    elif r < 0.82:
+                    elif r < 0.81:
+                        op = "lockprobe"
+                    elif r < 0.83:
                         op = "inv"
                     elif r < 0.85:
                         op = "reset"
@@ -293,6 +326,18 @@ class TheCheck(SeqCheck):
         sts.append(Stream("grow-long-addstrf", pack(self.gen_grow_long()), history=True,
                           note="addstrf with formatted lengths 1000..1025, 2040..2050, 4090..4100, 5000, 10000"))
         sts.append(Stream("random-list", pack(self.gen_random_list(100 if quick else 1500, 120)), history=True))
+        sts.append(Stream("big-limits", pack(self.gen_big_limits()), history=True,
+                          note="setsize 2^31-1, 2^31, 2^32-1, 2^32, 2^32+2, 2^40, SIZE_MAX-1, SIZE_MAX on list/queue/stack: value read back, adds accepted/refused"))
+        # the errno-reporting streams once more on THREADSAFE containers (same ops, same expected lines)
+        sts.append(Stream("exhaustive-index-ts", pack(ts_variant(self.gen_index_exhaustive(5 if quick else 8))), history=True,
+                          note="exhaustive-index on containers created with QLIST_THREADSAFE"))
+        sts.append(Stream("limits-ts", pack(ts_variant(self.gen_limits(3 if quick else 4))), history=True))
+        sts.append(Stream("queue-stack-ts", pack(ts_variant(self.gen_qs(2 if quick else 3, 300 if quick else 3000))), history=True))
+        sts.append(Stream("contents-grow-ts", pack(ts_variant(self.gen_contents() + self.gen_grow(2 if quick else 3))), history=True))
+        sts.append(Stream("random-list-ts", pack(ts_variant(self.gen_random_list(60 if quick else 600, 120))), history=True))
+        sts.append(Stream("invalid-args-ts", pack(ts_variant(self.gen_invalid())), history=True))
+        sts.append(Stream("lockprobe", pack(self.gen_lockprobe()), history=True,
+                          note="nested public call inside lock()..unlock(): a second thread finds the mutex busy until the outer unlock"))
         sts.append(Stream("ctor-options", pack(self.gen_ctor_options()), history=True,
                           note="every container kind x option words 0..3 (THREADSAFE and the undefined neighbour bit)"))
         sts.append(Stream("invalid-args", pack(self.gen_invalid()), history=True,
